@@ -18,9 +18,8 @@ import LitexModel.Stream.Pipe
     up r nb pw rev vtc       sink = payload | param<<nb
                              source = lane_0 | lane_1<<nb | … | param<<(r*nb) | (vtc ? count<<(r*nb+pw))
                              physical lane n holds logical sub-word i with n = rev ? r-1-i : i
-    strideup r pw rev g w_0 … sink fields w_k (nb = Σ w_k); source field k (width r*w_k) = the k-th field of
-                             physical lanes 0..r-1; param registered every cycle (g = 0, the code as it
-                             is) or together with a sub-word (g = 1, the repaired code)
+    strideup r pw rev w_0 …  sink fields w_k (nb = Σ w_k); source field k (width r*w_k) = the k-th field of
+                             physical lanes 0..r-1; param registered together with a sub-word
     down r nb pw rev vtc     sink = lanes | param<<(r*nb);  source = lane | param<<nb | (vtc ? last<<(nb+pw))
     stridedown r pw rev w_0 … sink field k (width r*w_k) holds the k-th field of physical lanes 0..r-1
     gearbox i o msb          sink = i-bit word, source = o-bit word
@@ -96,10 +95,6 @@ def encStrideUp (r pw : Nat) (rev : Bool) (ws : List Nat) (w : UpWord Nat Nat) :
 
 def numStrideUp (r pw : Nat) (rev : Bool) (ws : List Nat) : NumMachine (UpState Nat Unit × Nat) :=
   numElemG (decPayParam (sumW ws) pw) (fun _ => encStrideUp r pw rev ws) rkey (strideUp r 0 0)
-
-/-- The repaired StrideConverter (param loaded together with a sub-word): an `upConv` with the stride layout. -/
-def numStrideUpGated (r pw : Nat) (rev : Bool) (ws : List Nat) : NumMachine (UpState Nat Nat) :=
-  numElemG (decPayParam (sumW ws) pw) (fun _ => encStrideUp r pw rev ws) rkey (upConv r 0 0)
 
 def decDown (r nb pw : Nat) (rev : Bool) (d : Nat) (_ : List Nat) : List Nat × Nat :=
   (phys rev (unpackLanes nb r d), (d / 2 ^ (r * nb)) % 2 ^ pw)
